@@ -856,7 +856,7 @@ func (g *c16Gen) callData(x *c16Exec, self ethcmn.Address, kind string, depth in
 		ck := g.childKind()
 		init := g.initCode(ck)
 		salt := []byte{byte(r.Intn(3))}
-		mode := byte(1 + r.Intn(6))
+		mode := byte(1 + r.Intn(7))
 		// remember where children will live
 		if len(ck) < 4 || ck[:4] != "bad-" {
 			s32 := ethcmn.LeftPadBytes(salt, 32)
